@@ -23,7 +23,7 @@ def run(ctx):
                 ("close_single", C(nc=1, ns=2, units=2, maxwrite=1, single="TRUE", feat='"swrite","close","blockread"'), 1800)]
     gens = [("close_bfs", C(nc=2, ns=1, units=1, maxwrite=1, feat='"swrite","close"'), 30, 1, None, 2, {"allconc": not q}),
             ("close_block", C(nc=2, ns=1, units=2, maxwrite=2, feat='"swrite","close","blockread"'), 40, 1, 250 if q else 4000, 2, {}),
-            ("close_lazy", C(nc=3, ns=2, units=2, maxwrite=1, feat='"swrite","close","lazy"'), 60, 1, 200 if q else 3000, 3, {}),
+            ("close_lazy", C(nc=3, ns=2, units=2, maxwrite=1, feat='"swrite","close","lazy","readfrom"'), 60, 1, 200 if q else 3000, 3, {}),
             ("close_single", C(nc=1, ns=2, units=2, maxwrite=1, single="TRUE", feat='"swrite","close","blockread"'), 40, 1,
              150 if q else 2000, 1, {"singleplex": True})]
     return muxprop.run_property(ctx, LEVEL, ASSUME, KEYS, mcs, gens, RULE)
